@@ -81,6 +81,10 @@ pub struct GCase {
     pub raw_names: bool,
     /// which argument menu entries to use per instantiation
     pub inst: Vec<Vec<u8>>,
+    /// custom bounds only: bit 0 = the predicates on type parameters are written without `'static`
+    /// (the derive adds `'static` for every parameter itself)
+    #[serde(default)]
+    pub bounds_style: u8,
 }
 
 const PN: [&str; 3] = ["T", "U", "V"];
@@ -297,7 +301,7 @@ impl GCase {
             }
             for i in 0..self.n() {
                 if !self.skipped(i) {
-                    b.push(format!("{}: TypeInfo + 'static", self.pname(i)));
+                    b.push(if self.bounds_style % 2 == 1 { format!("{}: TypeInfo", self.pname(i)) } else { format!("{}: TypeInfo + 'static", self.pname(i)) });
                 }
             }
             for f in self.norm_fields() {
@@ -583,9 +587,96 @@ pub fn gcase() -> BoxedStrategy<GCase> {
             skipped_variant,
             custom_bounds,
             raw_names,
+            // derived from the generated instantiation menu: no extra generator dimension needed
+            bounds_style: inst.first().and_then(|v| v.first()).copied().unwrap_or(0) / 64,
             inst,
         })
         .boxed()
+}
+
+// ------------------------------------------------------ recursive definitions with custom bounds
+
+/// Mutually recursive generic definitions are the reason the `bounds(..)` attribute exists: the
+/// generated per-member bounds would be cyclic (E0275), the explicit ones replace them. Templates
+/// with generated variation; every one compiles on a tree where the statement holds.
+#[derive(Clone, Debug, PartialEq, Eq, Hash, Serialize, Deserialize)]
+pub struct RCase {
+    pub template: u8,
+    pub variation: u8,
+}
+
+impl RCase {
+    pub fn source(&self, with_derive: bool) -> String {
+        let v = self.variation;
+        let st = if v % 2 == 0 { " + 'static" } else { "" };
+        let (defs, insts): (String, Vec<&str>) = match self.template % 4 {
+            // empty bounds + skipped parameter (PhantomData keeps T alive)
+            0 => (
+                format!(
+                    "#[derive(TypeInfo)]\n#[scale_info(bounds(), skip_type_params(T))]\npub struct A<T> {{ a: Vec<B<T>>, b: Vec<B<()>>, m: core::marker::PhantomData<T> }}\n#[derive(TypeInfo)]\n#[scale_info({})]\npub struct B<T>(A<T>);\n",
+                    if v / 2 % 2 == 0 { "skip_type_params(T)" } else { "bounds(), skip_type_params(T)" }
+                ),
+                vec!["A<NoInfoT>", "B<u8>"],
+            ),
+            // explicit bounds on the parameter, both sides
+            1 => (
+                format!(
+                    "#[derive(TypeInfo)]\n#[scale_info(bounds(T: TypeInfo{st}))]\npub struct A<T> {{ b: Option<Box<B<T>>>, v: T }}\n#[derive(TypeInfo)]\n#[scale_info(bounds(T: TypeInfo{st}))]\npub {}\n",
+                    if v / 2 % 2 == 0 { "struct B<T> { a: Vec<A<T>> }" } else { "enum B<T> { Nil, Cons(Vec<A<T>>), Leaf { t: T } }" }
+                ),
+                vec!["A<u8>", "B<Vec<u16>>"],
+            ),
+            // self recursion through a container of Self with another instantiation
+            2 => (
+                format!("#[derive(TypeInfo)]\n#[scale_info(bounds(T: TypeInfo{st}))]\npub struct A<T> {{ next: Option<Box<A<Option<T>>>>, v: T }}\n"),
+                vec![],
+            ),
+            // three-cycle, one link with empty bounds and a skipped parameter
+            _ => (
+                format!(
+                    "#[derive(TypeInfo)]\n#[scale_info(bounds(T: TypeInfo{st}))]\npub struct A<T> {{ b: Vec<B<T>>, t: T }}\n#[derive(TypeInfo)]\n#[scale_info(bounds(T: TypeInfo{st}))]\npub struct B<T> {{ c: Option<C<T>> }}\n#[derive(TypeInfo)]\n#[scale_info(bounds(T: TypeInfo{st}))]\npub enum C<T> {{ Back(Box<A<T>>), End }}\n"
+                ),
+                vec!["A<u32>", "C<bool>"],
+            ),
+        };
+        let defs = if with_derive { defs } else { defs.lines().filter(|l| !l.starts_with("#[derive(TypeInfo)]") && !l.starts_with("#[scale_info(")).collect::<Vec<_>>().join("\n") + "\n" };
+        let mut s = String::from("#![allow(dead_code, unused_imports)]\nuse scale_info::{meta_type, PortableRegistry, Registry, TypeInfo};\npub struct NoInfoT;\nfn assert_type_info<X: TypeInfo + 'static>() {}\n");
+        s.push_str(&defs);
+        s.push_str("fn main() {\n");
+        if with_derive {
+            for inst in &insts {
+                s.push_str(&format!("    assert_type_info::<{inst}>();\n    {{ let mut r = Registry::new(); let id = r.register_type(&meta_type::<{inst}>()).id; let p: PortableRegistry = r.into(); assert!(p.resolve(id).is_some()); println!(\"REGISTERED {{}}\", p.types.len()); }}\n"));
+            }
+        }
+        s.push_str("}\n");
+        s
+    }
+}
+
+pub fn rcase() -> BoxedStrategy<RCase> {
+    (0u8..4, any::<u8>()).prop_map(|(template, variation)| RCase { template, variation }).boxed()
+}
+
+pub fn recursive_body(c: &RCase, obs: &mut Obs) -> Result<(), String> {
+    let a = farm::anchor(&FULL)?;
+    let out = farm::compile(&a, &c.source(true), true)?;
+    if !out.success {
+        let twin = farm::compile(&a, &c.source(false), false)?;
+        if !twin.success {
+            return Err(format!("generator-invalid: recursive definitions do not compile even without the derive: {}", twin.summary()));
+        }
+        return obs.fail_sig("derive-rejects-generic", format!("the derive (or the use of its impl) is rejected for recursive definitions whose bounds are given explicitly: {} || definitions: {}", out.summary(), c.source(true).lines().filter(|l| l.starts_with("#[scale_info") || l.starts_with("pub ")).collect::<Vec<_>>().join(" ")));
+    }
+    let run = farm::run(out.bin.as_ref().unwrap(), &[], Duration::from_secs(20))?;
+    if run.timed_out {
+        return Err("[sig:hang] registration of recursive generic definitions does not terminate".into());
+    }
+    if run.status != Some(0) {
+        return Err(format!("[sig:runtime-panic] registration of recursive generic definitions failed: {}", run.stderr.lines().find(|l| l.contains("panicked")).unwrap_or("")));
+    }
+    obs.class(&format!("recursive_template/{}", c.template % 4));
+    obs.nontrivial(c);
+    Ok(())
 }
 
 #[allow(dead_code)]
